@@ -156,10 +156,10 @@ class C04(Engine):
         q = self.tier == "quick"
         k = 2 if q else 12
         idx = 0
-        for L in range(0, 5):
+        for L in range(0, 5 if q else 6):       # thorough: all 1 365 class sequences up to length 5
             for seq in itertools.product(CLASSES, repeat=L):
                 for mode in ("explicit", "dir", "cwd"):
-                    for j in range(k):
+                    for j in range(k if L < 5 else 3):
                         rng = core.derive_rng("c04.seq", self.seed, idx)
                         yield idx, self.instantiate(rng, seq, mode, idx)
                         idx += 1
@@ -380,7 +380,8 @@ class C04(Engine):
 
     def coverage(self):
         return {"fidelity_subprocess_runs": getattr(self, "fidelity_runs", 0),
-                "exhaustive_part": "all 341 class sequences of length 0..4 x 3 modes were executed (k concrete draws each)"}
+                "exhaustive_part": ("all 341 class sequences of length 0..4 x 3 modes were executed (k concrete draws each)" if self.tier == "quick"
+                                    else "all 1365 class sequences of length 0..5 x 3 modes were executed (k concrete draws each)")}
 
     def fidelity(self):
         from ..fidelity import fidelity_sample
